@@ -878,5 +878,8 @@ pub fn spaces(tier: Tier, _seed: u64) -> Vec<Box<dyn Space>> {
             v.push(Box::new(ScopeHistories { family: 3, max_len: 5, nops: N_QUICK_OPS }));
         }
     }
+    // declarations that arrive through include files obey the same rules (the same file twice,
+    // files that use each other's names): C18's configurations with one directory
+    v.push(Box::new(crate::props::c18::Configs { ndirs: 1, nfiles: 3 }));
     v
 }
